@@ -843,98 +843,103 @@ example :
     g.sent = [⟨9, false, 1, 5, [2]⟩] ∧ g.thr = [.done] := by decide
 
 /-- **Readers are threads: every region of a query reads the membership of ITS instant** (`Model/PgConcRead.lean`:
-the six queries run next to any `Pg.Conc` writers, lock region by lock region; `map.iter()` shard by shard with
-writers in between, shard contents and order chosen by the schedule). For every thread set, every set of
+the six queries run next to any `Pg.Conc` writers, lock region by lock region; `map.iter()` shard by shard — ANY
+shard function `sh`, any shard count `nSh` — with writers in between). For every thread set, every set of
 readers and every schedule, with `M n` = the membership at the instant after `n` writer regions:
 (0) `M n` is the abstract relation evolved by the linearised operations of the first `n` writer regions, and the
 writers are not disturbed by the readers;
-for every reader that has returned (`vis` = the instants of its own regions, all within the run):
-(1) `get_members`, `get_local_members`, `which_scoped_groups` have ONE region: the answer is the projection of
-`M n` for the instant `n` of that region — linearizable;
+for every reader that has returned (`first` / `last` = the instants of its first and last region, `vis` = the
+instants of its own regions, all in `[first, last]`):
+(1) `get_members`, `get_local_members`, `which_scoped_groups` have ONE region (`first = last`): the answer is the
+projection of `M last` — linearizable;
 (2) `which_scopes_and_groups` / `which_groups` / `which_scopes`: a key (group, scope) is listed iff the group had
-members at the instant ITS shard was read — linearizable per key; the answer as a whole need not be the
-projection of any single instant (the `example` below: DashMap iteration is not a snapshot). -/
+members at the instant ITS shard was read — so a listed group had members at some instant of the call, and a group
+that has members at EVERY instant of the call is listed (every shard is read completely): linearizable per key;
+the answer as a whole need not be the projection of any single instant (the `example` below: DashMap iteration
+is not a snapshot). -/
 theorem conc_readers_linearizable (ops : List Op) (calls : List Conc.Pc) (qs : List Conc.Query)
-    (rsched : List Conc.RTid) :
-    let rg := Conc.rrun (Conc.rstart (g0 ops calls) qs) rsched
+    (sh : Key → Nat) (nSh : Nat) (hsh : 0 < nSh) (rsched : List Conc.RTid) :
+    let rg := Conc.rrun sh nSh (Conc.rstart (g0 ops calls) qs) rsched
     let M := fun (n : Nat) (k : Key) (x : Nat) => x ∈ membersOf (Conc.stAtH (g0 ops calls) rg.hist n) k
     (rg.hist = Conc.writersOf rsched ∧ rg.g = Conc.run (g0 ops calls) rg.hist ∧
       ∀ n k x, M n k x ↔
         Conc.absRun (fun k x => x ∈ membersOf (run init ops) k) (g0 ops calls) (rg.hist.take n) k x) ∧
-    ∀ q ans acc vis, Conc.RPc.ret q ans acc vis ∈ rg.rd →
-      (∀ p ∈ vis, p.2 ≤ rg.hist.length) ∧
-      (∀ s g, q = .getMembers s g → ∃ n, vis = [((s, g), n)] ∧ ∀ a, a ∈ ans ↔ M n (s, g) a) ∧
-      (∀ s g, q = .getLocalMembers s g → ∃ n, vis = [((s, g), n)] ∧
-        ∀ a, a ∈ ans ↔ M n (s, g) a ∧ a ∉ (Conc.stAtH (g0 ops calls) rg.hist n).remote) ∧
-      (∀ s, q = .whichScopedGroups s → ∃ n, vis = [((s, 0), n)] ∧ ∀ g, g ∈ ans ↔ ∃ a, M n (s, g) a) ∧
-      (q = .whichScopesAndGroups → ∀ k, k ∈ acc ↔ ∃ n, (k, n) ∈ vis ∧ ∃ a, M n k a) ∧
-      (q = .whichGroups → ∀ g, g ∈ ans ↔ ∃ s n, ((s, g), n) ∈ vis ∧ ∃ a, M n (s, g) a) ∧
-      (q = .whichScopes → ∀ s, s ∈ ans ↔ ∃ g n, ((s, g), n) ∈ vis ∧ ∃ a, M n (s, g) a) := by
+    ∀ q ans acc vis first last, Conc.RPc.ret q ans acc vis first last ∈ rg.rd →
+      (first ≤ last ∧ last ≤ rg.hist.length ∧ ∀ p ∈ vis, first ≤ p.2 ∧ p.2 ≤ last) ∧
+      (∀ s g, q = .getMembers s g → first = last ∧ ∀ a, a ∈ ans ↔ M last (s, g) a) ∧
+      (∀ s g, q = .getLocalMembers s g → first = last ∧
+        ∀ a, a ∈ ans ↔ M last (s, g) a ∧ a ∉ (Conc.stAtH (g0 ops calls) rg.hist last).remote) ∧
+      (∀ s, q = .whichScopedGroups s → first = last ∧ ∀ g, g ∈ ans ↔ ∃ a, M last (s, g) a) ∧
+      (Conc.isIter q = true →
+        (∀ k, k ∈ acc ↔ ∃ n, (k, n) ∈ vis ∧ ∃ a, M n k a) ∧
+        (∀ k, (∀ n, first ≤ n → n ≤ last → ∃ a, M n k a) → k ∈ acc)) ∧
+      (q = .whichScopesAndGroups → ans = []) ∧
+      (q = .whichGroups → ∀ g, g ∈ ans ↔ ∃ s, (s, g) ∈ acc) ∧
+      (q = .whichScopes → ∀ s, s ∈ ans ↔ ∃ g, (s, g) ∈ acc) := by
   intro rg M
-  have hinv : Conc.RInv (g0 ops calls) rg := Conc.rinv_run (Conc.rinv_start (g0 ops calls) qs) rsched
+  have hinv : Conc.RInv sh nSh (g0 ops calls) rg :=
+    Conc.rinv_run (Conc.rinv_start sh nSh (g0 ops calls) qs) rsched
   have hh : rg.hist = Conc.writersOf rsched := by
-    have := Conc.hist_run (Conc.rstart (g0 ops calls) qs) rsched
+    have := Conc.hist_run sh nSh (Conc.rstart (g0 ops calls) qs) rsched
     rw [show (Conc.rstart (g0 ops calls) qs).hist = [] from rfl, List.nil_append] at this
     exact this
   refine ⟨⟨hh, hinv.1, fun n k x => Conc.lin_run (g0 ops calls) (rg.hist.take n) k x⟩, ?_⟩
-  intro q ans acc vis hmem
+  intro q ans acc vis first last hmem
   have hok := hinv.2 _ hmem
   have hproj : ∀ n s g, g ∈ whichScopedGroups (Conc.stAtH (g0 ops calls) rg.hist n) s ↔ ∃ a, M n (s, g) a :=
     fun n s g => (conc_queries_are_projections ops calls (rg.hist.take n)).2.2.2.2.2 s g
-  have hvis : ∀ p ∈ vis, p.2 ≤ rg.hist.length := by
+  have hvis : first ≤ last ∧ last ≤ rg.hist.length ∧ ∀ p ∈ vis, first ≤ p.2 ∧ p.2 ≤ last := by
     by_cases hq : Conc.isIter q = true
     · exact (Conc.ret_iter_spec hok hq).1
-    · obtain ⟨n, hn, hv, _⟩ := Conc.ret_single_spec hok (by simpa using hq)
-      intro p hp; rw [hv] at hp
+    · obtain ⟨hfl, hn, hv, _⟩ := Conc.ret_single_spec hok (by simpa using hq)
+      refine ⟨by omega, hn, fun p hp => ?_⟩
+      rw [hv] at hp
       simp only [List.mem_singleton] at hp
-      rw [hp]; exact hn
-  refine ⟨hvis, ?_, ?_, ?_, ?_, ?_, ?_⟩
+      rw [hp]; exact ⟨by simp only []; omega, Nat.le_refl _⟩
+  refine ⟨hvis, ?_, ?_, ?_, ?_, ?_, ?_, ?_⟩
   · rintro s g rfl
-    obtain ⟨n, _, hv, ha⟩ := Conc.ret_single_spec hok rfl
-    exact ⟨n, hv, fun a => by rw [ha]; exact Iff.rfl⟩
+    obtain ⟨hfl, _, _, ha⟩ := Conc.ret_single_spec hok rfl
+    exact ⟨hfl, fun a => by rw [ha]; exact Iff.rfl⟩
   · rintro s g rfl
-    obtain ⟨n, _, hv, ha⟩ := Conc.ret_single_spec hok rfl
-    exact ⟨n, hv, fun a => by rw [ha]; exact getLocalMembers_spec _ s g a⟩
+    obtain ⟨hfl, _, _, ha⟩ := Conc.ret_single_spec hok rfl
+    exact ⟨hfl, fun a => by rw [ha]; exact getLocalMembers_spec _ s g a⟩
   · rintro s rfl
-    obtain ⟨n, _, hv, ha⟩ := Conc.ret_single_spec hok rfl
-    exact ⟨n, hv, fun g => by rw [ha]; exact hproj n s g⟩
+    obtain ⟨hfl, _, _, ha⟩ := Conc.ret_single_spec hok rfl
+    exact ⟨hfl, fun g => by rw [ha]; exact hproj last s g⟩
+  · intro hq
+    obtain ⟨_, hacc, hcomp, _⟩ := Conc.ret_iter_spec hok hq
+    exact ⟨hacc, hcomp hsh⟩
   · rintro rfl
-    exact (Conc.ret_iter_spec hok rfl).2.1
+    exact (Conc.ret_iter_spec hok rfl).2.2.2
   · rintro rfl
-    obtain ⟨_, hacc, ha⟩ := Conc.ret_iter_spec hok rfl
+    obtain ⟨_, _, _, ha⟩ := Conc.ret_iter_spec hok rfl
     intro g
     rw [ha]
     simp only [Conc.iterProj, List.mem_map]
     constructor
-    · rintro ⟨⟨s, g'⟩, hk, rfl⟩
-      obtain ⟨n, hn, hm⟩ := (hacc _).mp hk
-      exact ⟨s, n, hn, hm⟩
-    · rintro ⟨s, n, hn, hm⟩
-      exact ⟨(s, g), (hacc _).mpr ⟨n, hn, hm⟩, rfl⟩
+    · rintro ⟨⟨s, g'⟩, hk, rfl⟩; exact ⟨s, hk⟩
+    · rintro ⟨s, hk⟩; exact ⟨(s, g), hk, rfl⟩
   · rintro rfl
-    obtain ⟨_, hacc, ha⟩ := Conc.ret_iter_spec hok rfl
+    obtain ⟨_, _, _, ha⟩ := Conc.ret_iter_spec hok rfl
     intro s
     rw [ha]
     simp only [Conc.iterProj, List.mem_map]
     constructor
-    · rintro ⟨⟨s', g⟩, hk, rfl⟩
-      obtain ⟨n, hn, hm⟩ := (hacc _).mp hk
-      exact ⟨g, n, hn, hm⟩
-    · rintro ⟨g, n, hn, hm⟩
-      exact ⟨(s, g), (hacc _).mpr ⟨n, hn, hm⟩, rfl⟩
+    · rintro ⟨⟨s', g⟩, hk, rfl⟩; exact ⟨g, hk⟩
+    · rintro ⟨g, hk⟩; exact ⟨(s, g), hk, rfl⟩
 
-/-- `map.iter()` is not a snapshot (non-vacuity of the reader model, and why (2) above is per key): group (1,5)
-has member 1; a `which_scopes_and_groups` reads the shard of (1,5), then a `leave_scoped(1,5,[1])` and a
-`join_scoped(1,6,[2])` run to their commits, then the reader reads the shard of (1,6) and returns
-`[(1,5), (1,6)]` — although at no instant of the run both groups had members; a `get_members(1,6)` started
-while the join holds the entry is blocked and then sees `[2]`. -/
+/-- `map.iter()` is not a snapshot (non-vacuity of the reader model, and why (2) above is per key): two shards
+(shard of a key = its group number mod 2); group (1,6) has member 2; a `which_scopes_and_groups` reads shard 0 and
+finds (1,6); then a `leave_scoped(1,6,[2])` empties it and a `join_scoped(1,5,[1])` runs to its commit; the reader
+reads shard 1, finds (1,5) and returns `[(1,6), (1,5)]` — although at no instant of the run both groups had
+members; a `get_members(1,5)` started while the join holds the entry is blocked and then sees `[1]`. -/
 example :
-    let g := g0 [.join 1 5 [1]] [.leave 1 5 [1], .join 1 6 [2]]
-    let rs : List Conc.RTid := [.r 0 none, .r 0 (some [(1, 5)]), .w (.call 0), .w (.call 1), .w (.call 1), .w (.call 1),
-      .r 1 none, .w (.call 1), .r 0 (some [(1, 6), (1, 5)]), .r 0 none, .r 1 none]
-    let rg := Conc.rrun (Conc.rstart g [.whichScopesAndGroups, .getMembers 1 6]) rs
-    rg.rd = [.ret .whichScopesAndGroups [] [(1, 5), (1, 6)] [((1, 5), 0), ((1, 6), 5)],
-             .ret (.getMembers 1 6) [2] [] [((1, 6), 5)]] ∧
+    let g := g0 [.join 1 6 [2]] [.leave 1 6 [2], .join 1 5 [1]]
+    let rs : List Conc.RTid := [.r 0, .r 0, .w (.call 0), .w (.call 1), .w (.call 1), .w (.call 1),
+      .r 1, .w (.call 1), .r 0, .r 0, .r 1]
+    let rg := Conc.rrun (fun k => k.2) 2 (Conc.rstart g [.whichScopesAndGroups, .getMembers 1 5]) rs
+    rg.rd = [.ret .whichScopesAndGroups [] [(1, 6), (1, 5)] [((1, 6), 0), ((1, 5), 5)] 0 5,
+             .ret (.getMembers 1 5) [1] [] [((1, 5), 5)] 5 5] ∧
     ((List.range 6).all fun n =>
       (membersOf (Conc.stAtH g rg.hist n) (1, 5)).isEmpty || (membersOf (Conc.stAtH g rg.hist n) (1, 6)).isEmpty) = true := by
   decide
